@@ -329,6 +329,9 @@ func c03Directed(c *core.Ctx) bool {
 }
 
 func (c03) RunCase(c *core.Ctx) {
+	if c.Case%97 == 23 && !w10(c, "C03") {
+		return
+	}
 	if c.Case >= len(c03Matrix) {
 		if c.Case%200 == 3 && !c03Directed(c) {
 			return
